@@ -8,6 +8,7 @@
 //@ include contracts/query_canon.rs as callee
 //@ include contracts/headers.rs as callee
 //@ include contracts/creq.rs as callee
+//@ include contracts/time.rs as callee
 //@ include contracts/requirements.rs
 //@ include contracts/params.rs
 //@ include prelude/tail.rs
